@@ -136,6 +136,8 @@ impl Octree {
                 .map_init(
                     || (OctreeBuilder::new(settings, vars), rh.clone()),
                     |(builder, eval), cell| {
+                        #[cfg(fidget_verif)]
+                        fidget_core::render::verif_sched::point("octree-task");
                         let mut hermite = LeafHermiteData::default();
                         // Patch our cell so that it builds at index 0
                         let local_cell = CellIndex {
